@@ -906,6 +906,11 @@ func calleeName(c *ssa.CallCommon) string {
 	if b, ok := c.Value.(*ssa.Builtin); ok {
 		return "builtin." + b.Name()
 	}
+	// call through a function value: named by the NAMED function type of the value when it has one
+	// (contracts: `//@ func dynamic:TransferFunc`), else by the register
+	if nt, ok := c.Value.Type().(*types.Named); ok && nt.Obj().Pkg() != nil {
+		return "dynamic:" + nt.Obj().Pkg().Path() + "." + nt.Obj().Name()
+	}
 	return "dynamic:" + c.Value.Name()
 }
 
